@@ -183,20 +183,24 @@ Section Updates.
         end
     end.
 
+  (* the part of update_mortar after the per-side matrices have been computed *)
+  Definition update_mortar_with (ba bi : list (nat * nat * mat)) (sides' : list (list cell))
+             (s : mstate) : merr + mstate :=
+    let ma := bdiag 0 0 ba in
+    let mi := bdiag 0 0 bi in
+    let s1 := set_projections true true
+      {| sides := sides'; n_prim := n_prim s; n_sec := n_sec s;
+         p2m_int := mmul mi (p2m_int s); p2m_avg := mmul ma (p2m_avg s);
+         s2m_int := mmul mi (s2m_int s); s2m_avg := mmul ma (s2m_avg s);
+         m2p_int := m2p_int s; m2p_avg := m2p_avg s;
+         m2s_int := m2s_int s; m2s_avg := m2s_avg s |} in
+    if check_mappings s1 then inr s1 else inl MValueErr.
+
   Definition update_mortar (news : list (option (list cell))) (s : mstate) : merr + mstate :=
     match mortar_blocks Averaged (sides s) news, mortar_blocks Integrated (sides s) news with
     | inl e, _ => inl e
     | _, inl e => inl e
-    | inr ba, inr bi =>
-        let ma := bdiag 0 0 ba in
-        let mi := bdiag 0 0 bi in
-        let s1 := set_projections true true
-          {| sides := new_sides (sides s) news; n_prim := n_prim s; n_sec := n_sec s;
-             p2m_int := mmul mi (p2m_int s); p2m_avg := mmul ma (p2m_avg s);
-             s2m_int := mmul mi (s2m_int s); s2m_avg := mmul ma (s2m_avg s);
-             m2p_int := m2p_int s; m2p_avg := m2p_avg s;
-             m2s_int := m2s_int s; m2s_avg := m2s_avg s |} in
-        if check_mappings s1 then inr s1 else inl MValueErr
+    | inr ba, inr bi => update_mortar_with ba bi (new_sides (sides s) news) s
     end.
 
   Fixpoint secondary_blocks (sc : scaling) (gs : list (list cell)) (new_g : list cell)
@@ -213,29 +217,96 @@ Section Updates.
         end
     end.
 
+  (* the part of update_secondary after the per-side matrices have been computed *)
+  Definition update_secondary_with (ba bi : list (nat * mat)) (nsec : nat) (s : mstate)
+    : merr + mstate :=
+    let s1 := set_projections false true
+      {| sides := sides s; n_prim := n_prim s; n_sec := nsec;
+         p2m_int := p2m_int s; p2m_avg := p2m_avg s;
+         s2m_int := vstack 0 bi; s2m_avg := vstack 0 ba;
+         m2p_int := m2p_int s; m2p_avg := m2p_avg s;
+         m2s_int := m2s_int s; m2s_avg := m2s_avg s |} in
+    if check_mappings s1 then inr s1 else inl MValueErr.
+
   Definition update_secondary (new_g : list cell) (s : mstate) : merr + mstate :=
     match secondary_blocks Averaged (sides s) new_g,
           secondary_blocks Integrated (sides s) new_g with
     | inl e, _ => inl e
     | _, inl e => inl e
-    | inr ba, inr bi =>
-        let s1 := set_projections false true
-          {| sides := sides s; n_prim := n_prim s; n_sec := length new_g;
-             p2m_int := p2m_int s; p2m_avg := p2m_avg s;
-             s2m_int := vstack 0 bi; s2m_avg := vstack 0 ba;
-             m2p_int := m2p_int s; m2p_avg := m2p_avg s;
-             m2s_int := m2s_int s; m2s_avg := m2s_avg s |} in
-        if check_mappings s1 then inr s1 else inl MValueErr
+    | inr ba, inr bi => update_secondary_with ba bi (length new_g) s
     end.
+
+  (* ---- 2-D mortar grids: match_2d.  The overlap areas come from shapely (C33: Section
+     variables under the area contract); here they are DATA of the operation: for one pair of
+     grids the triple list returned by intersections.triangulations and the cell volumes of
+     the two grids.  The weights are scale_entries of them (C33 model of match_2d), the
+     arrangement and products are the same code as in 1-D.  A 2-D side grid is represented
+     by a list of placeholder cells of the right length (only its length is used). ---- *)
+  Record kblock := { kb_vnew : list Q; kb_vold : list Q; kb_isect : list entry }.
+
+  Definition kmatch (sc : scaling) (b : kblock) : mat :=
+    scale_entries (fun i => nth i (kb_vnew b) 0) (fun j => nth j (kb_vold b) 0) tol sc
+                  (kb_isect b).
+
+  Definition placeholder (n : nat) : list cell := repeat (0, 0) n.
+
+  Fixpoint mortar_blocks_k (sc : scaling) (olds : list (list cell))
+           (news : list (option kblock)) : list (nat * nat * mat) :=
+    match olds with
+    | [] => []
+    | g :: rest =>
+        let (nw, news') := match news with [] => (None, []) | x :: r => (x, r) end in
+        (match nw with
+         | None => (length g, length g, ident (length g))
+         | Some b => (length (kb_vnew b), length g, kmatch sc b)
+         end) :: mortar_blocks_k sc rest news'
+    end.
+
+  Fixpoint new_sides_k (olds : list (list cell)) (news : list (option kblock))
+    : list (list cell) :=
+    match olds with
+    | [] => []
+    | g :: rest =>
+        match news with
+        | [] => g :: rest
+        | None :: r => g :: new_sides_k rest r
+        | Some b :: r => placeholder (length (kb_vnew b)) :: new_sides_k rest r
+        end
+    end.
+
+  Definition update_mortar_k (news : list (option kblock)) (s : mstate) : merr + mstate :=
+    update_mortar_with (mortar_blocks_k Averaged (sides s) news)
+                       (mortar_blocks_k Integrated (sides s) news)
+                       (new_sides_k (sides s) news) s.
+
+  (* update_secondary: match_2d(g_side, new_g): one block per side, "new" = the side grid *)
+  Definition update_secondary_k (blocks : list kblock) (nsec : nat) (s : mstate)
+    : merr + mstate :=
+    update_secondary_with
+      (map (fun b => (length (kb_vnew b), kmatch Averaged b)) blocks)
+      (map (fun b => (length (kb_vnew b), kmatch Integrated b)) blocks) nsec s.
 
   Inductive op :=
   | UpdMortar (news : list (option (list cell)))
-  | UpdSecondary (new_g : list cell).
+  | UpdSecondary (new_g : list cell)
+  | UpdMortarK (news : list (option kblock))
+  | UpdSecondaryK (blocks : list kblock) (nsec : nat).
 
   Definition step (s : mstate) (o : op) : merr + mstate :=
     match o with
     | UpdMortar news => update_mortar news s
     | UpdSecondary g => update_secondary g s
+    | UpdMortarK news => update_mortar_k news s
+    | UpdSecondaryK blocks nsec => update_secondary_k blocks nsec s
+    end.
+
+  (* the area contract of C33 on the data of an operation (checked in the tie) *)
+  Definition kblock_ok (b : kblock) : bool := sums_ok (kb_isect b) (kb_vnew b) (kb_vold b).
+  Definition op_contract (o : op) : bool :=
+    match o with
+    | UpdMortarK news => forallb (fun x => match x with Some b => kblock_ok b | None => true end) news
+    | UpdSecondaryK blocks _ => forallb kblock_ok blocks
+    | _ => true
     end.
 
   (* states after every operation; stops at the first exception *)
@@ -291,6 +362,7 @@ Definition agree_hist (nrm tol : Q) (side_grids : list (list cell)) (np ns : nat
   match init_projections side_grids np ns ps fdi, impl with
   | inl e, [d] => res_close (inl e) d
   | inr s0, d0 :: ds =>
-      res_close (inr s0) d0 && all2 res_close (run nrm tol s0 ops) ds
+      res_close (inr s0) d0 && all2 res_close (run nrm tol s0 ops) ds &&
+      forallb op_contract ops
   | _, _ => false
   end.
